@@ -15,7 +15,8 @@ from lib_style import ATTRS
 PROPERTY = "C06"
 
 # CODE VARIANT FLAGS — which variant of the code the model is compared with (fields of `Variant` in
-# lean/RichModel/Model/ColorParse.lean).  1 = rich 9.10.0 as found, 0 = repaired (see /verif/pending_fixes).
+# lean/RichModel/Model/ColorParse.lean).  1 = rich 9.10.0 as found, 0 = repaired = what /repo contains now
+# (fixes c34676b, a639ea2, cf948b2; the diffs under /verif/pending_fixes are their proposals).
 RGB_VALUEERROR = 0      # F9 (owned by C14): Color.parse("rgb(1,,2)") raises ValueError, not ColorParseError
 ADD_HASH = 0            # F3: Style.__add__ stores the right operand's hash
 FROM_COLOR_HASH = 0     # F4: Style.from_color hashes (color, bgcolor, None, None, None)
@@ -23,7 +24,7 @@ WITHOUT_COLOR_HASH = 0  # F5: Style.without_color copies the old hash
 UPDATE_LINK_HASH = 0    # F6: Style.update_link copies the old hash
 UPDATE_LINK_DEF = 0     # F26: Style.update_link copies the cached _style_definition
 FLAGS = "".join(str(int(bool(x))) for x in (RGB_VALUEERROR, ADD_HASH, FROM_COLOR_HASH, WITHOUT_COLOR_HASH, UPDATE_LINK_HASH, UPDATE_LINK_DEF))
-# development aid only (trying a pending fix in a scratch worktree): VERIF_C06_FLAGS=100000 overrides the constants above
+# development aid only (comparing against another checkout, VERIF_REPO=<worktree>): VERIF_C06_FLAGS=100000 overrides the constants above
 FLAGS = os.environ.get("VERIF_C06_FLAGS") or FLAGS
 assert len(FLAGS) == 6 and set(FLAGS) <= {"0", "1"}
 
@@ -740,9 +741,9 @@ MANIFEST = {
     "and `not <word>`, every ANSI_COLOR_NAMES entry (table translated from rich/color.py each run) alone and after `on`, color(n) for n<=255, "
     "default, #rrggbb for all hex digits, rgb(r,g,b) for all r,g,b<=255; eq_hash: for every two styles reachable through "
     "__init__/from_color/parse/+/chain/combine/copy/update_link/without_color/str(), a == b implies equal stored hash keys "
-    "(induction on the construction route; proved for the code with pending_fixes/C06-hash-from-fields.diff, with decide-checked "
-    "witnesses old_*_hash_wrong that rich 9.10.0 as found violates it on four routes, and old_update_link_stale_str for the stale "
-    "str() cache). Tie: ~50k (quick) / ~1M (thorough) generated cases per run compared model-vs-rich on the full modelled state "
+    "(induction on the construction route; proved for the repaired code, which /repo contains now: fix a639ea2 = "
+    "pending_fixes/C06-hash-from-fields.diff, with decide-checked witnesses old_*_hash_wrong that rich 9.10.0 as found violated it on "
+    "four routes, and old_update_link_stale_str for the stale str() cache, fix cf948b2). Tie: ~50k (quick) / ~1M (thorough) generated cases per run compared model-vs-rich on the full modelled state "
     "(fields, _null, _style_definition, str(), the 13 getters, stored-hash consistency, wf), plus the theorems' executable statements "
     "evaluated on real Style objects with model-independent oracles (keyword reconstruction, docs/source/appendix/colors.rst, dict/set behaviour).",
     "note": "Partial: hash() itself is the Python runtime — modelled by the tuple that is hashed; assumption `equal tuples hash equally`, and the harness "
